@@ -177,9 +177,21 @@ func handYAML(r *rand.Rand, s vlib.PolicySpec) string {
 					case 1:
 						op = strings.ToUpper(op)
 					}
+					// the spellings of a number that a hand-written file may use (all accepted by the loader for this field)
 					val := fmt.Sprintf("%d", c.Val)
-					if r.Intn(2) == 0 {
+					switch r.Intn(8) {
+					case 0, 1:
 						val = fmt.Sprintf("0x%x", c.Val)
+					case 2:
+						val = fmt.Sprintf("\"%d\"", c.Val)
+					case 3:
+						val = fmt.Sprintf("\"0x%x\"", c.Val)
+					case 4:
+						val = fmt.Sprintf("'0x%x'", c.Val)
+					case 5:
+						val = fmt.Sprintf("0X%X", c.Val)
+					case 6:
+						val = fmt.Sprintf("\"0b%b\"", c.Val)
 					}
 					fmt.Fprintf(&b, "      - argument: %d\n        operation: %s\n        value: %s\n", c.Arg, op, val)
 				}
